@@ -2,6 +2,7 @@ import TonicModel.Lemmas.FramingWire
 import TonicModel.Lemmas.Interceptor
 import TonicModel.Model.Interceptor
 import TonicModel.Model.RecoverError
+import TonicModel.Model.GrpcWire
 import TonicModel.Spec.GrpcResponse
 /-
 C03 — Requests and responses on the wire are spec-conformant gRPC.
@@ -455,4 +456,89 @@ example : tryFromError [.opaque, .h2 8 [], .opaque] = none := by decide
 open RecoverError in
 example : (tryFromError [.h2 8 []]).map (·.code) = some 1 := by decide
 
+end C03
+
+/-! ### Dimension audit (builder aC03): the head of a NORMAL response, and `client::Grpc` as a value with a
+history.  Correspondence: case kinds `wresp` (handler metadata `HM` with reserved names, all four entry points)
+and `wreq` (`nth = 2`, `clone = 1`) of `harness/src/c03_wire.rs`. -/
+namespace C03
+section Wire
+open HMapLite HttpLite Interceptor GrpcWire
+
+private theorem ct_ne_enc : nameContentType ≠ nameGrpcEncoding := by decide
+private theorem st_ne_enc : nameGrpcStatus ≠ nameGrpcEncoding := by decide
+private theorem st_ne_ct : nameGrpcStatus ≠ nameContentType := by decide
+private theorem st_reserved : nameGrpcStatus ∈ reservedHeaders := by decide
+
+/-- **The head of a normal (not trailers-only) response is HTTP 200 with exactly one content-type,
+`application/grpc`, and NO `grpc-status`** — whatever metadata the handler put on its `Response` (a forged
+`grpc-status`, `content-type`, `te` … entry cannot reach the head: the one `grpc-status` of such a response is
+the one in the trailers block, `C03_server_body_wellformed`) and whether or not an encoding is announced. -/
+theorem C03_normal_response_head {ρ : Type} (metadata : Hdrs) (ext : Ext) (enc : Option Bytes) (b : ρ) :
+    let r := mapResponseOk metadata ext enc b
+    r.status = 200 ∧ r.body = b ∧
+    getAll nameContentType r.headers = [(grpcContentType, false)] ∧
+    getAll nameGrpcStatus r.headers = [] ∧
+    getAll nameGrpcEncoding r.headers = (match enc with | some e => [(e, false)] | none => getAll nameGrpcEncoding metadata) := by
+  have hs : getAll nameGrpcStatus (intoSanitizedHeaders metadata) = [] :=
+    getAll_removeAll_mem _ _ _ st_reserved
+  have he : getAll nameGrpcEncoding (intoSanitizedHeaders metadata) = getAll nameGrpcEncoding metadata :=
+    getAll_removeAll_not_mem _ _ _ (by decide)
+  cases enc with
+  | none =>
+    simp only [mapResponseOk, responseIntoHttp, true_and]
+    refine ⟨getAll_insert_self _ _ _, ?_, ?_⟩
+    · rw [getAll_insert_ne _ _ _ _ st_ne_ct]; exact hs
+    · rw [getAll_insert_ne _ _ _ _ (Ne.symm ct_ne_enc)]; exact he
+  | some e =>
+    simp only [mapResponseOk, responseIntoHttp, true_and]
+    refine ⟨?_, ?_, getAll_insert_self _ _ _⟩
+    · rw [getAll_insert_ne _ _ _ _ ct_ne_enc]; exact getAll_insert_self _ _ _
+    · rw [getAll_insert_ne _ _ _ _ st_ne_enc, getAll_insert_ne _ _ _ _ st_ne_ct]; exact hs
+
+example : getAll nameGrpcStatus (mapResponseOk [(str "grpc-status", (str "0", false)), (str "x-user", (str "1", false))] [] none ()).headers = [] := by
+  decide
+
+/-- The slip of mutant aC03-2 (`Response::into_http` taking the metadata as it is): a handler whose response
+metadata contains `grpc-status: 0` gets a `grpc-status` into the HEADERS of a response that also ends with a
+trailers block — two `grpc-status` (corpus line `wresp u g … HM 1 677270632d737461747573 30 …`). -/
+theorem C03_normal_response_head_unsanitized_fails :
+    getAll nameGrpcStatus
+      (mapResponseOkUnsanitized [(str "grpc-status", (str "0", false))] [] none ()).headers ≠ [] := by
+  decide
+
+/-- **A `client::Grpc` value has no memory**: after EVERY history of calls the value is what it was, a clone
+of it is the same value, and the request of the next call — on the value or on a clone of it — is
+`prepare_request` of the configuration, this call's path and this call's request alone (so `C03_request_line`
+holds of every call of every history, not only of the first). -/
+theorem C03_request_line_every_call {β : Type} (c : Cfg) (hist : List (Bytes × TRequest β))
+    (path : Bytes) (t : TRequest β) :
+    (run c hist).1 = c ∧ clone (run c hist).1 = c ∧
+    (callOnce (clone (run c hist).1) path t).2 = prepareRequest c.originPrefix c.originPath c.originHasQuery path t := by
+  have h : (run c hist).1 = c := by
+    induction hist with
+    | nil => rfl
+    | cons x rest ih => obtain ⟨p, t'⟩ := x; simpa [run, callOnce] using ih
+  refine ⟨h, ?_, ?_⟩
+  · rw [h]; rfl
+  · rw [h]; rfl
+
+/-- …and every request a history sends is the one `prepare_request` builds for that call alone. -/
+theorem C03_history_requests {β : Type} (c : Cfg) (hist : List (Bytes × TRequest β)) :
+    (run c hist).2 = hist.map (fun pt => prepareRequest c.originPrefix c.originPath c.originHasQuery pt.1 pt.2) := by
+  induction hist with
+  | nil => rfl
+  | cons x rest ih => obtain ⟨p, t'⟩ := x; simp [run, callOnce, ih]
+
+/-- The slip of mutant aC03-3 (the value caches the first URI it built): the second call of a history goes to
+the FIRST call's path (corpus: `wreq … <nth = 2> …`, first call `/first.Svc/Other`). -/
+theorem C03_request_line_fails_with_cached_uri :
+    let t : TRequest Unit := { metadata := [], message := (), extensions := [] }
+    let s0 : CachedSt := { cfg := { originPrefix := str "http://h", originPath := [], originHasQuery := false }, uri := none }
+    let s1 := (callCached s0 (str "/first.Svc/Other") t).1
+    (callCached s1 (str "/pkg.Svc/Method") t).2.uri = str "http://h/first.Svc/Other" ∧
+    (callCached s1 (str "/pkg.Svc/Method") t).2.uri ≠ str "http://h/pkg.Svc/Method" := by
+  decide
+
+end Wire
 end C03
